@@ -405,6 +405,14 @@ def build_units(tier: str) -> list[Unit]:
             units.append(Unit(f"chain/{kind}/{name}", chain_harness(kind, off), setup=install,
                               max_paths=20000))
     units.append(Unit("respond/state-and-suppression", respond_harness, setup=uc.install))
+    # which requests count as "unparsable" (raw) is decided by UDSRequest.parse_dynamic: its
+    # contract - every byte string parses to an object that keeps exactly these bytes, so bytes
+    # no typed request encodes stay raw and get the format rule - is discharged here as well
+    # (units shared with C01/C14)
+    from . import c01
+    for u in c01.build_units(tier)[0]:
+        if u.uid.startswith("parse-total/"):
+            units.append(u)
     return units
 
 
@@ -527,6 +535,9 @@ def native_rules(seeds: range = range(1, 5)) -> tuple[bool, str]:
 
 
 def native_replay(unit: str, obligation: str, model: dict) -> tuple[bool, str]:
+    if unit.startswith("parse-total/"):
+        from . import c01
+        return c01.native_parse_total(unit, model)
     return native_rules()
 
 
